@@ -139,6 +139,8 @@ def _leaf_dtype(x):
 
 def np_array(obj, dtype=None, copy=True, order='K', subok=False, ndmin=0, **kw):
     obj = _unlazy(obj)
+    if type(obj).__name__ == 'SymMatrix' and not subok:
+        obj = obj.view_plain()            # np.array / np.asarray of an np.matrix is a plain ndarray
     if isinstance(obj, SArr):
         r = obj.astype(dtype) if (dtype is not None and _np.dtype(dtype) != obj.ldtype) else \
             (obj.copy() if copy or copy is None and False else obj)
@@ -199,6 +201,8 @@ def _object_array_from_list(obj):
 
 def np_asarray(a, dtype=None, **kw):
     a = _unlazy(a)
+    if type(a).__name__ == 'SymMatrix':
+        a = a.view_plain()
     if isinstance(a, SArr) and (dtype is None or _np.dtype(dtype) == a.ldtype):
         return a
     return np_array(a, dtype=dtype, copy=False)
